@@ -64,7 +64,7 @@ func runC20(r *Run) {
 		{F: cc, C: "ne(nil,$fs.GetMomentumByHeight(1)#1) @ F($fs.Identifier().IsZero())", Why: "lookup failure refuses"},
 	})
 	r.GuardLike(cc, "ne(nil,recv.momentumPool.AddMomentumTransaction(", "a failed genesis insertion refuses")
-	r.HasPrefix(cc, "recv.momentumPool.AddMomentumTransaction(recv.AcquireInsert(\"add genesis momentum\"),recv.Genesis.GetGenesisTransaction())", "an empty store receives exactly the configured genesis transaction")
+	r.HasPrefix(cc, "recv.momentumPool.AddMomentumTransaction(recv.AcquireInsert(…),recv.Genesis.GetGenesisTransaction())", "an empty store receives exactly the configured genesis transaction")
 	r.Returns("chain/momentum.(*momentumStore).GetMomentumByHeight", []string{"momentum.parseMomentum(db.GetEntryByHeight(recv.DB,a0)#0,db.GetEntryByHeight(recv.DB,a0)#1)#0, momentum.parseMomentum(db.GetEntryByHeight(recv.DB,a0)#0,db.GetEntryByHeight(recv.DB,a0)#1)#1"}, "the height lookup reads the stored record only — never the configured genesis — so the compatibility check compares store against configuration")
 
 	// (4) constructor/validator agreement, error discipline
